@@ -3,12 +3,12 @@ EXTENDS Integers, Sequences, FiniteSets, TLC, Json, IOUtils, P_C06I
 Rec == ndJsonDeserialize(IOEnv.TRACE)
 VARIABLES l, mon, mode, bad
 tvars == <<l, mon, mode, bad>>
-TInit == l = 1 /\ mon = PInit([b |-> 1, d |-> 1, from |-> 0, to |-> 0, frz |-> FALSE]) /\ mode = "skip" /\ bad = <<>>
+TInit == l = 1 /\ mon = PInit([b |-> 1, d |-> 1, from |-> 0, to |-> 0, frz |-> FALSE, free |-> FALSE]) /\ mode = "skip" /\ bad = <<>>
 TNext ==
   /\ l <= Len(Rec)
   /\ l' = l + 1
   /\ LET e == Rec[l] IN
-     IF e.a = "reset" THEN mon' = PInit([b |-> e.b, d |-> e.d, from |-> e.from, to |-> e.to, frz |-> e.frz]) /\ mode' = "ok" /\ bad' = bad
+     IF e.a = "reset" THEN mon' = PInit([b |-> e.b, d |-> e.d, from |-> e.from, to |-> e.to, frz |-> e.frz, free |-> ("free" \in DOMAIN e /\ e.free)]) /\ mode' = "ok" /\ bad' = bad
      ELSE IF mode = "skip" \/ e.a = "end" THEN UNCHANGED <<mon, mode, bad>>
      ELSE LET r == Check(mon, e) IN
           IF r = "" THEN mon' = Upd(mon, e) /\ UNCHANGED <<mode, bad>>
